@@ -23,6 +23,9 @@ def make_pedigree(rng, kind, extra=False, shuffle=True):
     elif kind == "quartet":
         names = ["F", "M", "C1", "C2"]
         rel = [("F", "M", "C1"), ("F", "M", "C2")]
+    elif kind == "quintet":
+        names = ["F", "M", "C1", "C2", "C3"]
+        rel = [("F", "M", "C1"), ("F", "M", "C2"), ("F", "M", "C3")]
     elif kind == "threegen":
         names = ["GF", "GM", "P", "O", "C"]
         rel = [("GF", "GM", "P"), ("P", "O", "C") if rng.random() < 0.5 else ("O", "P", "C")]
@@ -110,18 +113,18 @@ def make_reads(rng, ped, ncols, positions, haps=None, max_reads=7, noise=0.15, m
                     a = haps[i][j][h]
                 else:
                     a = rng.randint(0, 1)
-                vs.append([positions[j], a, rng.choice([1, 5, 10, 20, 30, 30, 40])])
+                vs.append([positions[j], a, rng.choice([0, 1, 5, 10, 20, 30, 30, 40])])
             reads.append({"ind": i, "vars": vs})
             budget -= 1
     return reads
 
 
 def make_instance(rng, kind=None, ncols=None, mode=None, extra=None, first_col=None, no_reads=None):
-    kind = kind or rng.choice(["trio", "trio", "quartet", "quartet", "threegen"])
+    kind = kind or rng.choice(["trio", "trio", "quartet", "quartet", "threegen", "quintet"])
     extra = (rng.random() < 0.25) if extra is None else extra
     ped = make_pedigree(rng, kind, extra=extra)
     n = ped["n"]
-    ncols = ncols or rng.choice([1, 2, 2, 3, 3, 4, 5])
+    ncols = rng.choice([1, 2, 2, 3, 3, 4, 5]) if ncols is None else ncols
     mode = mode or rng.choice(["consistent", "consistent", "consistent", "any", "missing"])
     positions = sorted(rng.sample(range(10, 400), ncols))
     haps = consistent_haps(rng, ped, ncols, recomb=rng.choice([0.0, 0.2, 0.5]))
@@ -137,7 +140,7 @@ def make_instance(rng, kind=None, ncols=None, mode=None, extra=None, first_col=N
         genos[0] = [list(g) for g in first_col]
     if no_reads is None:
         no_reads = rng.random() < 0.2
-    reads = [] if no_reads else make_reads(rng, ped, ncols, positions, haps=haps if rng.random() < 0.7 else None)
+    reads = [] if no_reads or ncols == 0 else make_reads(rng, ped, ncols, positions, haps=haps if rng.random() < 0.7 else None)
     recomb = [rng.choice([0, 1, 5, 10, 30, 100]) for _ in range(ncols)]
     return {"ped": ped, "positions": positions, "genos": genos, "reads": reads, "recomb": recomb}
 
@@ -290,11 +293,12 @@ def py_sr_column_ok(ped, gs, t, alle):
 
 # ------------------------------------------------------------------------------------------- CLI scenarios
 def random_names(rng, k):
-    """k distinct sample names of mixed styles, so that alphabetical order is unrelated to the roles"""
+    """k distinct sample names of mixed styles, so that alphabetical order is unrelated to the roles; some share prefixes"""
     out = set()
     letters = "abcdefghijklmnopqrstuvwxyz"
+    base = "".join(rng.choice(letters) for _ in range(rng.randint(1, 3)))
     while len(out) < k:
-        style = rng.randrange(5)
+        style = rng.randrange(6)
         if style == 0:
             nm = "NA" + "".join(rng.choice("0123456789") for _ in range(5))
         elif style == 1:
@@ -303,6 +307,8 @@ def random_names(rng, k):
             nm = rng.choice(letters).upper() + "".join(rng.choice(letters) for _ in range(rng.randint(1, 5)))
         elif style == 3:
             nm = rng.choice("123456789") + "".join(rng.choice(letters + "0123456789_") for _ in range(rng.randint(1, 5)))
+        elif style == 4:   # shared prefix: s, s1, s10, s2 ...
+            nm = base + rng.choice(["", "1", "2", "10", "11", "_1", "a", "ab"])
         else:
             nm = rng.choice(["son", "daughter", "father", "mother", "kid", "dad", "mum", "proband", "sib", "HG", "s"]) \
                 + rng.choice(["", "", "1", "2", "_a", "_b", "-x"])
@@ -312,57 +318,127 @@ def random_names(rng, k):
     return out
 
 
+FAMILY_SHAPES = ["1child", "1child", "2child", "2child", "2child", "3child", "threegen", "threegen"]
+
+
+def make_family(rng, names, shape):
+    """pops names; returns {"shape", "members", "trios": [[child, father, mother]]}"""
+    fa, mo = names.pop(), names.pop()
+    if shape == "threegen":
+        # grandparents -> one of the parents; one or two grandchildren
+        gf, gm = names.pop(), names.pop()
+        trios = [[fa, gf, gm] if rng.random() < 0.5 else [mo, gf, gm]]
+        kids = [names.pop() for _ in range(rng.choice([1, 1, 2]))]
+        trios += [[k, fa, mo] for k in kids]
+        members = [gf, gm, fa, mo] + kids
+    else:
+        kids = [names.pop() for _ in range(int(shape[0]))]
+        trios = [[k, fa, mo] for k in kids]
+        members = [fa, mo] + kids
+    return {"shape": shape, "members": members, "trios": trios}
+
+
+def shape_size(shape):
+    return {"1child": 3, "2child": 4, "3child": 5, "threegen": 6}[shape]
+
+
 def make_cli_spec(rng, **kw):
-    """families with 1-3 children (sometimes two independent families), random sample names, VCF column order and
-    PED line order shuffled independently of each other and of the roles"""
+    """families with 1-3 children or three generations (sometimes two independent families), random sample names,
+    VCF column order, PED line order and --sample order shuffled independently of each other and of the roles; PED files
+    with founder lines, ignored relationships, comments; input genotypes in several spellings; most options of
+    `whatshap phase` that do not change the meaning of the property"""
     nfam = kw.get("nfam") or (2 if rng.random() < 0.2 else 1)
-    nchild = [kw.get("nchildren") or rng.choice([1, 1, 2, 2, 2, 3]) for _ in range(nfam)]
+    shapes = [kw.get("shape") or rng.choice(FAMILY_SHAPES) for _ in range(nfam)]
     if nfam == 2:
-        nchild = [min(c, 2) for c in nchild]
+        shapes = [sh if sh in ("1child", "2child") else "2child" for sh in shapes]
     extra = kw.get("extra", rng.random() < 0.3)
-    names = random_names(rng, sum(2 + c for c in nchild) + (1 if extra else 0))
-    families, ped_lines = [], []
-    for c in nchild:
-        fa, mo = names.pop(), names.pop()
-        ch = [names.pop() for _ in range(c)]
-        families.append({"father": fa, "mother": mo, "children": ch})
-        ped_lines += [[x, fa, mo] for x in ch]
+    names = random_names(rng, sum(shape_size(sh) for sh in shapes) + (1 if extra else 0) + 3)
+    families = [make_family(rng, names, sh) for sh in shapes]
     other = names.pop() if extra else None
-    rng.shuffle(ped_lines)
-    members = [s for f in families for s in [f["father"], f["mother"]] + f["children"]]
+    ghosts = [names.pop() for _ in range(3)]            # names that are NOT in the VCF
+    members = [x for f in families for x in f["members"]]
     samples = members + ([other] if other else [])
     rng.shuffle(samples)
+    big = any(sh in ("3child", "threegen") for sh in shapes)
+    # ---- sample selection
+    sample_arg = kw.get("sample_arg") or rng.choice(["none", "none", "none", "sample", "use-ped"])
+    sample_list = None
+    if sample_arg == "sample":
+        sample_list = members + ([other] if other and rng.random() < 0.5 else [])
+        rng.shuffle(sample_list)
+    # ---- PED file
+    entries = [("trio", t) for f in families for t in f["trios"]]
+    childs = {t[0] for f in families for t in f["trios"]}
+    for x in members:
+        if x not in childs and rng.random() < 0.4:
+            entries.append(("founder", [x, "0", "0"]))
+    if other and rng.random() < 0.5:
+        # relationship with one unknown parent: ignored by whatshap, `other` stays unrelated
+        par = rng.choice(members)
+        entries.append(("ignored", [other, par, "0"] if rng.random() < 0.5 else [other, "0", par]))
+    if sample_arg != "use-ped" and rng.random() < 0.25:
+        # a trio whose members are not all in the VCF: ignored
+        entries.append(("ignored", [ghosts[0], rng.choice(members), ghosts[1]]))
+    rng.shuffle(entries)
+    ped_text, ped_lines = [], []
+    if rng.random() < 0.4:
+        ped_text.append("#family individual father mother sex phenotype")
+    for kind, (c, f, m) in entries:
+        sep = rng.choice(["\t", " ", "  ", "\t"])
+        famid = rng.choice(["FAM", "F1", "x", c])
+        ped_text.append(sep.join([famid, c, f, m, rng.choice(["0", "1", "2"]), rng.choice(["0", "1", "-9"])]))
+        if kind == "trio":
+            ped_lines.append([c, f, m])
+        if rng.random() < 0.1:
+            ped_text.append("")
+        if rng.random() < 0.1:
+            ped_text.append("# comment " + c)
     reads_mode = kw.get("reads_mode") or rng.choice(["all", "all", "some", "none", "children", "parents"])
     if reads_mode == "all":
         reads_for = list(samples)
     elif reads_mode == "none":
         reads_for = []
     elif reads_mode == "children":
-        reads_for = [s for f in families for s in f["children"]]
+        reads_for = [x for x in members if x in childs]
     elif reads_mode == "parents":
-        reads_for = [s for f in families for s in (f["father"], f["mother"])]
+        reads_for = [x for x in members if x not in childs]
     else:
-        reads_for = [s for s in samples if rng.random() < 0.5]
-    big = max(nchild) >= 3
+        reads_for = [x for x in samples if rng.random() < 0.5]
+    nchrom = 1 if big else rng.choice([1, 1, 2])
+    cost = kw.get("cost") or rng.choice(["default", "recombrate", "recombrate", "genmap"])
+    chromosome_arg = None
+    if cost == "genmap":
+        chromosome_arg = "chrA"
+    elif nchrom == 2 and rng.random() < 0.3:
+        chromosome_arg = rng.choice(["chrA", "chrB"])
     spec = {
         "seed": rng.randrange(1 << 40),
-        "kind": "+".join(f"{c}child" for c in nchild),
-        "families": families, "other": other, "samples": samples, "ped_lines": ped_lines, "members": members,
-        "nvars": kw.get("nvars", rng.randint(5, 10 if big or nfam == 2 else 14)),
-        "nchrom": 1 if big else rng.choice([1, 1, 2]),
+        "kind": "+".join(shapes),
+        "families": families, "other": other, "samples": samples, "ped_lines": ped_lines, "ped_text": ped_text,
+        "members": members, "sample_arg": sample_arg, "sample_list": sample_list,
+        "nvars": kw.get("nvars") or (rng.choice([1, 2, 3]) if rng.random() < 0.12
+                                      else rng.randint(5, 10 if big or nfam == 2 else 14)),
+        "nchrom": nchrom, "chromosome_arg": chromosome_arg,
         "het_fraction": rng.choice([0.4, 0.6, 0.8]),
         "recomb_prob": rng.choice([0.0, 0.0, 0.15, 0.3]),
-        "reads_for": reads_for,
+        "reads_for": reads_for, "reads_mode": reads_mode,
         "depth": rng.choice([4, 10, 25, 60]),
         "len_range": rng.choice([[60, 150], [120, 350], [250, 700]]),
-        "cost": kw.get("cost") or rng.choice(["default", "recombrate", "recombrate", "genmap"]),
+        "cost": cost,
         "recombrate": rng.choice([0.01, 1.26, 1000.0, 100000.0, 3000000.0]),
         "genetic": kw.get("genetic", rng.random() < 0.7),
         "n_conflict": rng.choice([0, 0, 1, 2, 3]),
         "n_missing": rng.choice([0, 0, 1, 2]),
         "n_wrong": rng.choice([0, 0, 1, 2]),     # consistent-looking but untrue genotypes
+        "gt_forms": rng.choice([0.0, 0.0, 0.3]),   # probability of an unsorted / pre-phased spelling of an input call
+        "tag": kw.get("tag") or rng.choice(["PS", "PS", "HP"]),
+        "only_snvs": rng.random() < 0.15,
+        "no_reference": rng.random() < 0.15,
+        "merge_reads": rng.random() < 0.1,
+        "recomb_list": rng.random() < 0.3,
+        "phased_input": rng.choice(members) if rng.random() < 0.15 else None,
         # three trios = 64 transmission values: keep the coverage per sample at 1-2
-        "downsampling": rng.choice([5, 10]) if big else rng.choice([6, 15, 15]),
+        "downsampling": rng.choice([2, 5, 10]) if big else rng.choice([2, 3, 6, 15, 15]),
     }
     return spec
 
@@ -375,25 +451,41 @@ def parse_gt_text(txt):
     return [int(a) for a in alle]
 
 
+MISSING_FORMS = ["./.", "./.", ".", ".|.", "0/.", "./1"]
+
+
 def build_cli_inputs(spec, wd):
-    """writes ref.fa, in.vcf, reads.bam, fam.ped (and genmap.txt); returns (sc, input genotypes
-    {(chrom, pos0): {sample: [alleles] or []}})"""
+    """writes ref.fa, in.vcf, reads.bam, fam.ped (and genmap.txt, phased.vcf); returns (sc, input genotypes
+    {(chrom, pos0): {sample: [alleles] or []}}, override texts)"""
     from . import synth
     rng = random.Random(spec["seed"])
     sc = synth.make_scenario(rng, nchrom=spec["nchrom"], nsamples=len(spec["samples"]), nvars=spec["nvars"],
                              sample_names=spec["samples"], het_fraction=spec["het_fraction"],
-                             kinds=("snv", "snv", "snv", "ins", "del"))
+                             kinds=("snv", "snv", "snv", "ins", "del", "mnp"))
     parents = {}
     for fam in spec["families"]:
-        for ch in fam["children"]:
-            parents[ch] = (fam["father"], fam["mother"])
+        for ch, fa, mo in fam["trios"]:
+            parents[ch] = (fa, mo)
+    done = set()
+
+    def inherit(x):
+        if x in done:
+            return
+        done.add(x)
+        if x in parents:
+            fa, mo = parents[x]
+            inherit(fa)
+            inherit(mo)
+            for c in sc.chroms:
+                h, _ = synth.inherit(rng, sc.haps[fa][c], sc.haps[mo][c], recomb_prob=spec["recomb_prob"])
+                sc.haps[x][c] = h
+    for x in sorted(parents):
+        inherit(x)
     children = sorted(parents)
-    for c in sc.chroms:
-        for ch in children:
-            fa, mo = parents[ch]
-            h, _ = synth.inherit(rng, sc.haps[fa][c], sc.haps[mo][c], recomb_prob=spec["recomb_prob"])
-            sc.haps[ch][c] = h
     override = {}
+
+    def cur_gt(s, c, i):
+        return tuple(sorted(parse_gt_text(override[(s, c, i)]))) if (s, c, i) in override else sc.genotype(s, c, i)
     for c in sc.chroms:
         nv = len(sc.variants[c])
         idxs = list(range(nv))
@@ -404,14 +496,14 @@ def build_cli_inputs(spec, wd):
             i = idxs.pop()
             ch = rng.choice(children)
             fa, mo = parents[ch]
-            gf, gm = sc.genotype(fa, c, i), sc.genotype(mo, c, i)
+            gf, gm = cur_gt(fa, c, i), cur_gt(mo, c, i)
             bad = [g for g in GENOS
                    if not ((max(g) in gm and min(g) in gf) or (min(g) in gm and max(g) in gf))]
             if bad:
                 g = rng.choice(bad)
                 override[(ch, c, i)] = f"{g[0]}/{g[1]}"
             else:   # both parents het: make a parent homozygous against a homozygous child instead
-                gc = sc.genotype(ch, c, i)
+                gc = cur_gt(ch, c, i)
                 if gc[0] == gc[1]:
                     par = rng.choice([fa, mo])
                     override[(par, c, i)] = f"{1 - gc[0]}/{1 - gc[0]}"
@@ -420,7 +512,7 @@ def build_cli_inputs(spec, wd):
                 break
             i = idxs.pop()
             s = rng.choice(spec["members"])
-            override[(s, c, i)] = rng.choice(["./.", "./.", "."])
+            override[(s, c, i)] = rng.choice(MISSING_FORMS)
         for _ in range(spec["n_wrong"]):
             if not idxs:
                 break
@@ -428,6 +520,16 @@ def build_cli_inputs(spec, wd):
             s = rng.choice(spec["members"])
             g = rng.choice(GENOS)
             override[(s, c, i)] = f"{g[0]}/{g[1]}"
+        # other spellings of the same genotype: unsorted, already phased
+        if spec["gt_forms"]:
+            for s in sc.samples:
+                for i in range(nv):
+                    if rng.random() < spec["gt_forms"]:
+                        g = parse_gt_text(override[(s, c, i)]) if (s, c, i) in override else list(sc.genotype(s, c, i))
+                        if len(g) != 2:
+                            continue
+                        a, b = rng.choice([(g[0], g[1]), (g[1], g[0])])
+                        override[(s, c, i)] = f"{a}{rng.choice(['/', '|'])}{b}"
     synth.write_fasta(sc, os.path.join(wd, "ref.fa"))
     synth.write_vcf(sc, os.path.join(wd, "in.vcf"), gt_override=override)
     reads = []
@@ -440,7 +542,20 @@ def build_cli_inputs(spec, wd):
         reads.append(dict(name="ghost0", sample="ghost-not-in-vcf", chrom=c, start=0, cigar=[("M", 30)],
                           seq=sc.ref[c][:30], qual=30, hap=0, flag=0))
     synth.write_bam(sc, reads, os.path.join(wd, "reads.bam"))
-    synth.write_ped(os.path.join(wd, "fam.ped"), [tuple(l) for l in spec["ped_lines"]])
+    with open(os.path.join(wd, "fam.ped"), "w") as f:
+        f.write("\n".join(spec["ped_text"]) + "\n")
+    if spec["phased_input"]:
+        s0 = spec["phased_input"]
+        phased = {s0: {}}
+        for c in sc.chroms:
+            nv = len(sc.variants[c])
+            cut = nv // 2
+            d = {}
+            for i in range(nv):
+                if sc.genotype(s0, c, i) == (0, 1):
+                    d[i] = sc.variants[c][0].pos + 1 if i < cut else sc.variants[c][cut].pos + 1
+            phased[s0][c] = d
+        synth.write_vcf(sc, os.path.join(wd, "phased.vcf"), phased=phased)
     if spec["cost"] == "genmap":
         L = max(len(sc.ref[c]) for c in sc.chroms)
         pts = sorted(rng.sample(range(1, L + 200), 6))
@@ -453,6 +568,8 @@ def build_cli_inputs(spec, wd):
     gts = {}
     for c in sc.chroms:
         for i, v in enumerate(sc.variants[c]):
+            if spec["only_snvs"] and v.kind != "snv":
+                continue          # not considered by the run at all
             d = {}
             for s in sc.samples:
                 if (s, c, i) in override:
@@ -460,24 +577,42 @@ def build_cli_inputs(spec, wd):
                 else:
                     d[s] = list(sc.genotype(s, c, i))
             gts[(c, v.pos)] = d
-    return sc, gts
+    return sc, gts, override
 
 
 def cli_args(spec):
-    args = ["phase", "-r", "ref.fa", "-o", "out.vcf", "--ped", "fam.ped",
-            "--internal-downsampling", str(spec["downsampling"])]
+    args = ["phase", "-o", "out.vcf", "--ped", "fam.ped", "--internal-downsampling", str(spec["downsampling"]),
+            "--tag", spec["tag"]]
+    args += ["--no-reference"] if spec["no_reference"] else ["-r", "ref.fa"]
     if spec["cost"] == "recombrate":
         args += ["--recombrate", repr(spec["recombrate"])]
     elif spec["cost"] == "genmap":
-        args += ["--genmap", "genmap.txt", "--chromosome", "chrA"]
+        args += ["--genmap", "genmap.txt"]
+    if spec["chromosome_arg"]:
+        args += ["--chromosome", spec["chromosome_arg"]]
     if not spec["genetic"]:
         args += ["--no-genetic-haplotyping"]
+    if spec["only_snvs"]:
+        args += ["--only-snvs"]
+    if spec["merge_reads"]:
+        args += ["--merge-reads"]
+    if spec["recomb_list"]:
+        args += ["--recombination-list", "recomb.tsv"]
+    if spec["sample_arg"] == "use-ped":
+        args += ["--use-ped-samples"]
+    elif spec["sample_arg"] == "sample":
+        for x in spec["sample_list"]:
+            args += ["--sample", x]
     args += ["in.vcf", "reads.bam"]
+    if spec["phased_input"]:
+        args += ["phased.vcf"]
     return args
 
 
 def parse_out_calls(path):
-    """{(chrom, pos0): {sample: (a, b, ps) | None}}; a phased call without PS gets ps = -1"""
+    """{(chrom, pos0): {sample: (a, b, ps) | None}}: (allele on haplotype 0, allele on haplotype 1, phase set).
+    --tag PS: GT a|b with PS (a phased call without PS gets ps = -1); --tag HP: GT x/y with HP=ps-h,ps-h' giving the
+    haplotype number of each listed GT allele (the definition of the tag)."""
     calls = {}
     samples = []
     with open(path) as f:
@@ -493,10 +628,16 @@ def parse_out_calls(path):
             for s, txt in zip(samples, cols[9:]):
                 vals = dict(zip(fmt, txt.split(":")))
                 gt = vals.get("GT", ".")
+                hp = vals.get("HP")
                 if "|" in gt:
                     a, b = gt.split("|")
                     ps = vals.get("PS")
-                    d[s] = (int(a), int(b), int(ps) if ps not in (None, ".", "") else -1)
+                    d[s] = (int(a), int(b), int(ps) if ps not in (None, ".", "") else -1) if "." not in (a, b) else None
+                elif hp not in (None, ".", "") and "." not in hp.split(",") and "/" in gt:
+                    al = [int(x) for x in gt.split("/")]
+                    items = [e.split("-") for e in hp.split(",")]
+                    order = [int(h) - 1 for _, h in items]
+                    d[s] = (al[order.index(0)], al[order.index(1)], int(items[0][0]))
                 else:
                     d[s] = None
             calls[(cols[0], int(cols[1]) - 1)] = d
